@@ -595,17 +595,17 @@ def _parse_experimental_function_value_info_name(
         A tuple of the function domain, function name and value name if the value info is for a function.
         None otherwise.
     """
-    parts = name.split("/")
-    expected_parts = 2
-    if len(parts) != expected_parts:
+    # Split at the first "::" and then at the first "/" so that value names containing the
+    # separators (e.g. "/block/Add_output_0") are parsed. Names that cannot be split back
+    # unambiguously are never written by _serialize_experimental_value_info_for_function_ir9_into
+    function_domain, sep, rest = name.partition("::")
+    if not sep:
         return None
-    function, value_name = parts
-    parts = function.split("::")
-    if len(parts) != expected_parts:
+    function_name, sep, value_name = rest.partition("/")
+    if not sep:
         return None
     # NOTE: There will not be overload because overloads are introduced in ONNX IR v10, which also
     # introduces the ValueInfoProto for functions
-    function_domain, function_name = parts
     return function_domain, function_name, value_name
 
 
@@ -1765,6 +1765,15 @@ def _serialize_experimental_value_info_for_function_ir9_into(
     def format_name(value_name: str) -> str:
         return f"{function_qualified_name}/{value_name}"
 
+    def can_be_parsed_back(value_name: str) -> bool:
+        # A "::" in the domain or a "/" in the function name makes the formatted name
+        # ambiguous: the entry could not be attached to this value again when the model is loaded
+        return _parse_experimental_function_value_info_name(format_name(value_name)) == (
+            function.domain,
+            function.name,
+            value_name,
+        )
+
     for input in function.inputs:
         if not input.name:
             logger.warning(
@@ -1775,6 +1784,8 @@ def _serialize_experimental_value_info_for_function_ir9_into(
             continue
         if not _should_create_value_info_for_value(input):
             # No need to serialize value info if it is not set
+            continue
+        if not can_be_parsed_back(input.name):
             continue
         serialize_value_into(graph_proto.value_info.add(), input, name=format_name(input.name))
     for node in function:
@@ -1788,6 +1799,8 @@ def _serialize_experimental_value_info_for_function_ir9_into(
                 continue
             if not _should_create_value_info_for_value(node_output):
                 # No need to serialize value info if it is not set
+                continue
+            if not can_be_parsed_back(node_output.name):
                 continue
             serialize_value_into(
                 graph_proto.value_info.add(),
